@@ -404,6 +404,40 @@ func coordinate(prop, tier string) int {
 	nextJob := 0
 	deadline := start.Add(budget)
 
+	// regression first: the pinned replay of every repaired finding of this
+	// property is run again; a fixed entry suppresses nothing, so whatever such
+	// a plan violates now is reported like any other violation
+	pinnedViol := 0
+	for _, f := range findings {
+		if f.Property != prop || f.Status != "fixed" || f.Replay == "" {
+			continue
+		}
+		path := filepath.Join(verifDir(), f.Replay)
+		b, err := os.ReadFile(path)
+		if err != nil {
+			continue
+		}
+		var rf ReplayFile
+		if json.Unmarshal(b, &rf) != nil || rf.Plan == nil || rf.Property != prop {
+			continue
+		}
+		res, h := runPlanJob(pl, Job{ID: 0, Prop: prop, Tier: "quick", Seed: rf.Seed, Plan: rf.Plan, Mode: rf.Mode})
+		if h != "" {
+			fmt.Printf("HARNESS-TROUBLE: pinned replay %s: %s\n", f.Replay, h)
+			return 2
+		}
+		sum.stats["pinned_replays_of_fixed_findings_run"]++
+		for _, v := range res.Violations {
+			if matchFinding(findings, v) != nil {
+				continue
+			}
+			fmt.Printf("violation: %s\n  %s\n  (pinned replay of repaired finding %s, repaired by %s)\n", v.Signature(), v.String(), f.ID, f.Commit)
+			fmt.Printf("VIOLATION property=%s replay=%s\n", prop, path)
+			pinnedViol++
+			break
+		}
+	}
+
 	var wg sync.WaitGroup
 	for i := 0; i < nw; i++ {
 		wg.Add(1)
@@ -512,6 +546,9 @@ func coordinate(prop, tier string) int {
 		return 2
 	}
 	if sum.jobs == 0 {
+		if pinnedViol > 0 {
+			return 1
+		}
 		fmt.Println("HARNESS-TROUBLE: no job completed")
 		return 2
 	}
@@ -537,6 +574,9 @@ func coordinate(prop, tier string) int {
 
 	// new violations: minimise, write replay, confirm
 	exit := 0
+	if pinnedViol > 0 {
+		exit = 1
+	}
 	var sigs []string
 	for s := range bySig {
 		sigs = append(sigs, s)
@@ -561,6 +601,7 @@ func coordinate(prop, tier string) int {
 		exit = 1
 	}
 	wall := time.Since(start).Seconds()
+	nviol += pinnedViol
 	writeEvidence(prop, tier, baseSeed, info, sum, wall, nviol, knownIDs)
 	fmt.Printf("%s %s: %d runs, %d statements, %d crash images, %.0f runs/h, simulated %.1f s, %d distinct event logs, %d distinct non-trivial, %d violations, %d known findings, %.1fs wall\n",
 		prop, tier, sum.jobs, sum.stmts, sum.images, float64(sum.jobs)/wall*3600, float64(sum.simMs)/1000, len(sum.hashes), len(sum.fps), nviol, len(knownIDs), wall)
